@@ -1,10 +1,13 @@
 package docker
 
 import (
+	"bytes"
 	"context"
 	"crypto/tls"
 	"encoding/json"
+	"errors"
 	"fmt"
+	"io"
 	"net/http"
 	"time"
 
@@ -17,7 +20,12 @@ const (
 	ScanType = "docker"
 
 	defaultDataTimeout = 10 * time.Second
+
+	// upper bound for the size of an /info response
+	maxInfoSize = 8 << 20
 )
+
+var errNotObject = errors.New("docker: /info response is not a JSON object")
 
 type ScanResult struct {
 	ScanType string        `json:"scan"`
@@ -90,7 +98,8 @@ func (s *Scanner) Scan(ctx context.Context, r *scan.Request) (result scan.Result
 	ctx, cancel := context.WithTimeout(ctx, s.dataTimeout)
 	defer cancel()
 	// TODO DNS names
-	host := fmt.Sprintf("tcp://%s:%d", r.DstIP.String(), r.DstPort)
+	addr := fmt.Sprintf("%s:%d", r.DstIP.String(), r.DstPort)
+	host := "tcp://" + addr
 
 	var docker *moby.Client
 	if docker, err = moby.NewClientWithOpts(
@@ -103,7 +112,7 @@ func (s *Scanner) Scan(ctx context.Context, r *scan.Request) (result scan.Result
 	}
 
 	var info types.Info
-	if info, err = docker.Info(ctx); err != nil {
+	if info, err = s.getInfo(ctx, docker, addr); err != nil {
 		return
 	}
 	// retrieve server version ignoring error
@@ -115,5 +124,38 @@ func (s *Scanner) Scan(ctx context.Context, r *scan.Request) (result scan.Result
 		Info:     info,
 		Version:  version,
 	}
+	return
+}
+
+// getInfo is docker.Info(ctx) with a strict reading of the response body. The moby client decodes the
+// first JSON value of the body into types.Info: `null` (and `null` or an object followed by anything)
+// came back as a valid, possibly empty, Info and the endpoint was reported as a Docker daemon.
+func (s *Scanner) getInfo(ctx context.Context, docker *moby.Client, addr string) (info types.Info, err error) {
+	docker.NegotiateAPIVersion(ctx)
+	url := fmt.Sprintf("%s://%s/v%s/info", s.proto, addr, docker.ClientVersion())
+	var req *http.Request
+	if req, err = http.NewRequestWithContext(ctx, http.MethodGet, url, nil); err != nil {
+		return
+	}
+	var resp *http.Response
+	if resp, err = s.client.Do(req); err != nil {
+		return
+	}
+	defer resp.Body.Close()
+	if resp.StatusCode < 200 || resp.StatusCode >= 400 {
+		return info, fmt.Errorf("docker: GET %s: %s", url, resp.Status)
+	}
+	var body []byte
+	if body, err = io.ReadAll(io.LimitReader(resp.Body, maxInfoSize+1)); err != nil {
+		return
+	}
+	if len(body) > maxInfoSize {
+		return info, errors.New("docker: /info response is too large")
+	}
+	if first := bytes.TrimLeft(body, " \t\r\n"); len(first) == 0 || first[0] != '{' {
+		return info, errNotObject
+	}
+	// Unmarshal, unlike Decoder.Decode, refuses input that continues after the value
+	err = json.Unmarshal(body, &info)
 	return
 }
